@@ -8,7 +8,7 @@ from ..terms import A, C, F, V, L, NIL, call, conj, TRUE, CUT, show_program, sho
 
 ID = 'C04'
 LEVEL = 'model_checking'
-RULE = ('(e) what a process does first: every sequence of <= 4 events over {A loads, A queries, A clears, B loads, B queries}, each in a process of its own forked from a zygote that never resolved a call, where B\'s predicates are named like A\'s registrations are filed (step_1, pair_2, ext_n, once_1): afterwards both engines give exactly their own answers; (a) two engines, generator level: every ordered pair of actor scripts from a menu of 20 incl. two with fact tables of 40 and 300 facts looked up by key (+3 scripts that register ONE shared function object - inferred, with an explicit arity, as unbound and as bound method - paired with each other and with the registering scripts) (create engine, retractall / retract of predicates the engine does not know yet, load '
+RULE = ('(e) what a process does first: every sequence of <= 4 events over {A loads, A queries, A clears, B loads, B queries}, each in a process of its own forked from a zygote that never resolved a call, where B\'s predicates are named like A\'s registrations are filed (step_1, pair_2, ext_n, once_1): afterwards both engines give exactly their own answers; (a) two engines, generator level: every ordered pair of actor scripts from a menu of 21 incl. one that asserts with ONE Atom object (made by whichever of the two engines needs it first) as predicate name on both engines and two with fact tables of 40 and 300 facts looked up by key (+3 scripts that register ONE shared function object - inferred, with an explicit arity, as unbound and as bound method - paired with each other and with the registering scripts) (create engine, retractall / retract of predicates the engine does not know yet, load '
         'script with overwrite on/off, assert_fact, register_function, clear, atom, start/next/close of a query or a '
         'retract) x ALL merge orders of their steps (with disjoint vocabularies and, for scripts that clear or intern atoms, with the same atom names on both engines); (b) one engine: every pair (and every triple from a subset) of '
         'side-effect-free queries over disjoint variables (recursion, cut, if-then-else, negation, \\=, once, findall, '
@@ -60,6 +60,9 @@ MENU = [
     # with the same keys on both engines, looked up by key, also while an enumeration by key is suspended
     [('assertmany', 'big', 40), ('askkey', 'big', 7), ('askkey', 'big', 33), ('askkey', 'big', 7)],
     [('assertmany', 'big', 300), ('startkey', 'big', 3), ('next',), ('askkey', 'big', 270), ('next',)],
+    # ONE Atom object (made once by the engine that needs it first, kept in a constant of the application) used as the
+    # predicate name in assert_fact on several engines: the facts are the facts of the engine that was asked
+    [('assertshared', 'p', 's1'), ('start', 'p'), ('next',), ('assertshared', 'p', 's2'), ('next',), ('next',)],
     # ONE Python function object (resp. a function and its bound method) registered on several engines
     # in different ways: what an engine calls it by is that engine's own business
     [('regshared', 'explicit-1'), ('count', 'sh', 1), ('count', 'sh', 2)],
@@ -68,7 +71,18 @@ MENU = [
 ]
 
 
-SHARED_FROM = 20
+SHARED_FROM = 21
+
+
+_SHARED_ATOMS = {}
+
+
+def shared_atom(name, yp):
+    """the application's constant: made by whichever engine needs it first in this run, used by all"""
+    a = _SHARED_ATOMS.get(name)
+    if a is None:
+        a = _SHARED_ATOMS[name] = yp.atom(name)
+    return a
 
 
 def SHARED(arg1, arg2=None):
@@ -113,6 +127,8 @@ class Actor:
             self.yp.load_script_from_string(self.texts[op[1]], fn=impl.SCRIPT_FN, overwrite=op[2])
         elif k == 'assert':
             self.yp.assert_fact(self.yp.atom(op[1]), [self.yp.atom('%s_%s' % (op[2], tag))])
+        elif k == 'assertshared':
+            self.yp.assert_fact(shared_atom(op[1], self.yp), [self.yp.atom('%s_%s' % (op[2], tag))])
         elif k == 'assertmany':
             for i in range(op[2]):
                 self.yp.assert_fact(self.yp.atom(op[1]), [self.yp.atom('k%d' % i), self.yp.atom('v%d_%s' % (i, tag))])
@@ -192,6 +208,7 @@ class Actor:
 
 
 def run_merge(texts, s1, s2, order, tags=('A', 'B')):
+    _SHARED_ATOMS.clear()
     a = [Actor(tags[0], s1, texts), Actor(tags[1], s2, texts)]
     for who in order:
         a[who].step()
@@ -199,6 +216,7 @@ def run_merge(texts, s1, s2, order, tags=('A', 'B')):
 
 
 def alone(texts, script, tag):
+    _SHARED_ATOMS.clear()
     a = Actor(tag, script, texts)
     while not a.done():
         a.step()
